@@ -11,7 +11,9 @@ lifted to what the API returns:
 * `SpanFam F I`: a per-family count `seen s` of the bytes that are *in flight* in state `s` (consumed,
   but still attributable to a later error span), with the facts that every step adds at most the byte
   it consumes and that every error span (`len + after`) fits in `seen` plus what the step consumed;
-  `variantSpan`: all 13 variant decoders.
+  `variantSpan`: all 13 variant decoders.  `I : StInv F` is a plain state invariant (`variantStInv`:
+  the UTF-8 decoder's `utf8Inv`, `True` elsewhere), so these theorems use no `native_decide` table
+  check (`#print axioms`: `propext`, `Classical.choice`, `Quot.sound`).
 * `call_span`: a raw call returns `Malformed(l, a)` only with `l + a ≤ seen s + read`, and
   `seen` of the state it leaves is `≤ seen s + read`.
 * `ReachAt v s pos`: state `s` is reached from the initial state by raw calls that consumed `pos`
@@ -64,8 +66,35 @@ theorem spanOk_unread {σ} (n : Nat) (seen : σ → Nat) (st : σ) (l a : Nat) (
   simp only [FeedRes.bad, Option.some.injEq] at he
   rw [← he]; simpa [FeedRes.bad] using h2
 
+/-- a state invariant preserved by every step, flush, end-of-stream error and look-ahead error (the
+first halves of `Lemmas.Scalar.ScalarInv`; kept separate so that the theorems below do not inherit the
+`native_decide` table checks of the scalar-value half) -/
+structure StInv (F : Fam) where
+  Inv : F.σ → Prop
+  init : Inv F.init
+  step : ∀ s b, Inv s → F.pend s = none → b < 256 → Inv (F.feed s b).st
+  pend : ∀ s o s', Inv s → F.pend s = some (o, s') → Inv s'
+  eof : ∀ s e s', Inv s → F.eof s = some (e, s') → Inv s'
+  alt : ∀ s src m r, Inv s → F.alt s src = some (m, r) → Inv r.st
+
+def StInv.ofScalar {F : Fam} (I : ScalarInv F) : StInv F where
+  Inv := I.Inv
+  init := I.init
+  step := fun s b hi hp hb => (I.step s b hi hp hb).1
+  pend := fun s o s' hi h => (I.pend s o s' hi h).1
+  eof := I.eof
+  alt := fun s src m r hi h => (I.alt s src m r hi h).1
+
+def StInv.trivial (F : Fam) : StInv F where
+  Inv := fun _ => True
+  init := True.intro
+  step := fun _ _ _ _ _ => True.intro
+  pend := fun _ _ _ _ _ => True.intro
+  eof := fun _ _ _ _ _ => True.intro
+  alt := fun _ _ _ _ _ _ => True.intro
+
 /-- the in-flight byte count of a family -/
-structure SpanFam (F : Fam) (I : ScalarInv F) where
+structure SpanFam (F : Fam) (I : StInv F) where
   seen : F.σ → Nat
   init : seen F.init = 0
   step : ∀ s b, I.Inv s → F.pend s = none → b < 256 → SpanOk (seen s) seen (F.feed s b)
@@ -74,8 +103,9 @@ structure SpanFam (F : Fam) (I : ScalarInv F) where
   alt : ∀ s src m r, F.pend s = none → F.alt s src = some (m, r) →
     seen r.st ≤ seen s + m ∧ ∀ e, r.err = some e → e.1 + e.2 ≤ seen s + m
 
-theorem run_span {F : Fam} {I : ScalarInv F} (S : SpanFam F I) (k : Sink) (L : Laws F) (last : Bool) :
+theorem run_span {F : Fam} {I : StInv F} (S : SpanFam F I) (k : Sink) (L : Laws F) (last : Bool) :
     ∀ (src : List Nat) (s : F.σ) (budget : Budget), I.Inv s → F.pend s = none → (∀ b ∈ src, b < 256) →
+      I.Inv (run F k last s src budget).st ∧
       S.seen (run F k last s src budget).st ≤ S.seen s + (run F k last s src budget).read ∧
       ∀ l a, (run F k last s src budget).res = .malformed l a →
         l + a ≤ S.seen s + (run F k last s src budget).read := by
@@ -85,18 +115,18 @@ theorem run_span {F : Fam} {I : ScalarInv F} (S : SpanFam F I) (k : Sink) (L : L
     intro s budget hi hp _
     simp only [run]
     cases last with
-    | false => exact ⟨Nat.le_refl _, by intro l a h; cases h⟩
+    | false => exact ⟨hi, Nat.le_refl _, by intro l a h; cases h⟩
     | true =>
       simp only [if_true]
       cases he : F.eof s with
-      | none => exact ⟨Nat.le_refl _, by intro l a h; cases h⟩
+      | none => exact ⟨hi, Nat.le_refl _, by intro l a h; cases h⟩
       | some p =>
         obtain ⟨e, s'⟩ := p
         have h := S.eof s e s' hp he
         simp only
         split
-        · exact ⟨Nat.le_refl _, by intro l a h; cases h⟩
-        · refine ⟨by simpa using h.2, ?_⟩
+        · exact ⟨hi, Nat.le_refl _, by intro l a h; cases h⟩
+        · refine ⟨I.eof s e s' hi he, by simpa using h.2, ?_⟩
           intro l a hla
           simp only [Res.malformed.injEq] at hla
           rw [← hla.1, ← hla.2]; simpa using h.1
@@ -112,7 +142,7 @@ theorem run_span {F : Fam} {I : ScalarInv F} (S : SpanFam F I) (k : Sink) (L : L
       | full n =>
         simp only [stopHere] at hstop
         split at hstop
-        · cases hstop; exact ⟨Nat.le_refl _, by intro l a h; cases h⟩
+        · cases hstop; exact ⟨hi, Nat.le_refl _, by intro l a h; cases h⟩
         · cases hstop
       | altAny =>
         simp only [stopHere] at hstop
@@ -127,37 +157,40 @@ theorem run_span {F : Fam} {I : ScalarInv F} (S : SpanFam F I) (k : Sink) (L : L
           | some e =>
             simp only [hE, Option.some.injEq] at hstop
             subst hstop
-            refine ⟨h.1, ?_⟩
+            refine ⟨I.alt s (b :: tl) m r' hi ha, h.1, ?_⟩
             intro l a hla
             simp only [Res.malformed.injEq] at hla
             rw [← hla.1, ← hla.2]; exact h.2 e hE
     | none =>
       simp only
       have hstep := S.step s b hi hp hb0
+      have hinv := I.step s b hi hp hb0
       cases hE : (F.feed s b).err with
       | none =>
         simp only
         have hu := L.noerr_unread s b hE
-        have IH := ih (F.feed s b).st budget.dec (I.step s b hi hp hb0).1 (L.pend_err s b hp hE)
+        have IH := ih (F.feed s b).st budget.dec hinv (L.pend_err s b hp hE)
           (fun x hx => hb x (List.mem_cons_of_mem _ hx))
         have h1 := hstep.1
         simp only [hu, Bool.false_eq_true, if_false] at h1
-        refine ⟨by omega, ?_⟩
+        refine ⟨IH.1, by have := IH.2.1; omega, ?_⟩
         intro l a hla
-        have := IH.2 l a hla
+        have := IH.2.2 l a hla
         omega
       | some e =>
         simp only
-        refine ⟨by simpa [Nat.add_comm] using hstep.1, ?_⟩
+        refine ⟨hinv, by simpa [Nat.add_comm] using hstep.1, ?_⟩
         intro l a hla
         simp only [Res.malformed.injEq] at hla
         rw [← hla.1, ← hla.2]
         have := hstep.2 e hE
         split <;> simp_all
 
-/-- **a raw call reports only error spans that lie inside the in-flight bytes plus what it read** -/
-theorem call_span {F : Fam} {I : ScalarInv F} (S : SpanFam F I) (k : Sink) (L : Laws F) (s : F.σ)
+/-- **a raw call reports only error spans that lie inside the in-flight bytes plus what it read**
+(and re-establishes the invariant) -/
+theorem call_span {F : Fam} {I : StInv F} (S : SpanFam F I) (k : Sink) (L : Laws F) (s : F.σ)
     (src : List Nat) (last : Bool) (budget : Budget) (hi : I.Inv s) (hb : ∀ b ∈ src, b < 256) :
+    I.Inv (call F k s src last budget).st ∧
     S.seen (call F k s src last budget).st ≤ S.seen s + (call F k s src last budget).read ∧
     ∀ l a, (call F k s src last budget).res = .malformed l a →
       l + a ≤ S.seen s + (call F k s src last budget).read := by
@@ -168,19 +201,19 @@ theorem call_span {F : Fam} {I : ScalarInv F} (S : SpanFam F I) (k : Sink) (L : 
     obtain ⟨o, s'⟩ := p
     simp only
     split
-    · exact ⟨Nat.le_refl _, by intro l a h; cases h⟩
-    · have h := run_span S k L last src s' budget.dec (I.pend s o s' hi hp).1 (L.pend_once s o s' hp) hb
+    · exact ⟨hi, Nat.le_refl _, by intro l a h; cases h⟩
+    · have h := run_span S k L last src s' budget.dec (I.pend s o s' hi hp) (L.pend_once s o s' hp) hb
       have hle := S.pend s o s' hp
-      refine ⟨?_, ?_⟩
+      refine ⟨h.1, ?_, ?_⟩
       · show S.seen (run F k last s' src budget.dec).st ≤ S.seen s + (run F k last s' src budget.dec).read
-        have := h.1; omega
+        have := h.2.1; omega
       · intro l a hla
         show l + a ≤ S.seen s + (run F k last s' src budget.dec).read
-        have := h.2 l a hla
+        have := h.2.2 l a hla
         omega
 
 /-- the numeric ranges of the documentation for every `Malformed` a raw call returns -/
-theorem run_errOk {F : Fam} (I : ScalarInv F) (k : Sink) (L : Laws F) (last : Bool)
+theorem run_errOk {F : Fam} (I : StInv F) (k : Sink) (L : Laws F) (last : Bool)
     (hfeed : ∀ s b e, I.Inv s → (F.feed s b).err = some e → ErrOk e)
     (heof : ∀ s e s', I.Inv s → F.eof s = some (e, s') → ErrOk e)
     (halt : ∀ s src m r e, F.alt s src = some (m, r) → r.err = some e → ErrOk e) :
@@ -237,13 +270,13 @@ theorem run_errOk {F : Fam} (I : ScalarInv F) (k : Sink) (L : Laws F) (last : Bo
       cases hE : (F.feed s b).err with
       | none =>
         simp only [hE] at h
-        exact ih (F.feed s b).st budget.dec (I.step s b hi hp hb0).1 (L.pend_err s b hp hE)
+        exact ih (F.feed s b).st budget.dec (I.step s b hi hp hb0) (L.pend_err s b hp hE)
           (fun x hx => hb x (List.mem_cons_of_mem _ hx)) l a h
       | some e =>
         simp only [hE, Res.malformed.injEq] at h
         rw [← h.1, ← h.2]; exact hfeed s b e hi hE
 
-theorem call_errOk {F : Fam} (I : ScalarInv F) (k : Sink) (L : Laws F)
+theorem call_errOk {F : Fam} (I : StInv F) (k : Sink) (L : Laws F)
     (hfeed : ∀ s b e, I.Inv s → (F.feed s b).err = some e → ErrOk e)
     (heof : ∀ s e s', I.Inv s → F.eof s = some (e, s') → ErrOk e)
     (halt : ∀ s src m r e, F.alt s src = some (m, r) → r.err = some e → ErrOk e)
@@ -257,7 +290,7 @@ theorem call_errOk {F : Fam} (I : ScalarInv F) (k : Sink) (L : Laws F)
     simp only [hp] at h
     split at h
     · cases h
-    · exact run_errOk I k L last hfeed heof halt src s' budget.dec (I.pend s o s' hi hp).1
+    · exact run_errOk I k L last hfeed heof halt src s' budget.dec (I.pend s o s' hi hp)
         (L.pend_once s o s' hp) hb l a h
 
 /-! ### the in-flight count of every family -/
@@ -273,7 +306,7 @@ macro "span_leaf" : tactic =>
     | (with_reducible apply spanOk_bad <;> span_arith))
 
 /-- families without state that matters: nothing is ever in flight -/
-def zeroSpan (F : Fam) (I : ScalarInv F)
+def zeroSpan (F : Fam) (I : StInv F)
     (hstep : ∀ s b, SpanOk 0 (fun _ : F.σ => 0) (F.feed s b))
     (hpend : ∀ s, F.pend s = none) (heof : ∀ s, F.eof s = none) (halt : ∀ s src, F.alt s src = none) :
     SpanFam F I where
@@ -300,11 +333,11 @@ theorem replacement_spanOk (s : Bool) (b : Nat) : SpanOk 0 (fun _ : Bool => 0) (
   unfold replacementFeed
   split <;> span_leaf
 
-def singleByteSpan (t : Array Nat) (I : ScalarInv (singleByteFam t)) : SpanFam (singleByteFam t) I :=
+def singleByteSpan (t : Array Nat) (I : StInv (singleByteFam t)) : SpanFam (singleByteFam t) I :=
   zeroSpan _ I (singleByte_spanOk t) (fun _ => rfl) (fun _ => rfl) (fun _ _ => rfl)
-def userDefinedSpan (I : ScalarInv userDefinedFam) : SpanFam userDefinedFam I :=
+def userDefinedSpan (I : StInv userDefinedFam) : SpanFam userDefinedFam I :=
   zeroSpan _ I userDefined_spanOk (fun _ => rfl) (fun _ => rfl) (fun _ _ => rfl)
-def replacementSpan (I : ScalarInv replacementFam) : SpanFam replacementFam I :=
+def replacementSpan (I : StInv replacementFam) : SpanFam replacementFam I :=
   zeroSpan _ I replacement_spanOk (fun _ => rfl) (fun _ => rfl) (fun _ _ => rfl)
 
 /-! two-byte families: the lead byte -/
@@ -332,7 +365,7 @@ theorem twoByte_spanOk (lf : Nat → LeadRes) (tf : Nat → Nat → TrailRes) (s
       · exact spanOk_unread _ _ _ _ _ (by simp [twoByteSeen]) (by simp [twoByteSeen])
       · exact spanOk_bad _ _ _ _ _ (by simp [twoByteSeen]) (by simp [twoByteSeen])
 
-def twoByteSpan (lf : Nat → LeadRes) (tf : Nat → Nat → TrailRes) (a : Bool) (I : ScalarInv (twoByteFam lf tf a)) :
+def twoByteSpan (lf : Nat → LeadRes) (tf : Nat → Nat → TrailRes) (a : Bool) (I : StInv (twoByteFam lf tf a)) :
     SpanFam (twoByteFam lf tf a) I where
   seen := twoByteSeen
   init := rfl
@@ -393,7 +426,7 @@ theorem eucJp_spanOk (s : EucJpSt) (b : Nat) : SpanOk (eucJpCount s) eucJpCount 
       · exact spanOk_bad _ _ _ _ _ (by simp [eucJpCount]) (by simp [eucJpCount])
     · exact spanOk_ok _ _ _ _ (by simp [eucJpCount])
 
-def eucJpSpan (I : ScalarInv eucJpFam) : SpanFam eucJpFam I where
+def eucJpSpan (I : StInv eucJpFam) : SpanFam eucJpFam I where
   seen := eucJpCount
   init := rfl
   step := fun s b _ _ _ => eucJp_spanOk s b
@@ -447,7 +480,7 @@ theorem gb_spanOk (s : GbSt) (b : Nat) : SpanOk (gbSeen s) gbSeen (gbFeed s b) :
       | some c => exact spanOk_ok _ _ _ _ (by simp [gbSeen, gbInit, gbCount])
       | none => exact spanOk_bad _ _ _ _ _ (by simp [gbSeen, gbInit, gbCount]) (by simp [gbSeen, gbCount])
 
-def gbSpan (I : ScalarInv gbFam) : SpanFam gbFam I where
+def gbSpan (I : StInv gbFam) : SpanFam gbFam I where
   seen := gbSeen
   init := rfl
   step := fun s b _ _ _ => gb_spanOk s b
@@ -504,7 +537,7 @@ theorem utf8_spanOk (s : Utf8St) (b : Nat) (hi : utf8Inv s) : SpanOk (utf8Seen s
         simp [utf8Seen, hn]
       · exact spanOk_ok _ _ _ _ (by simp [utf8Seen, utf8Init])
 
-def utf8Span : SpanFam utf8Fam utf8Scalar where
+def utf8Span : SpanFam utf8Fam (StInv.ofScalar utf8Scalar) where
   seen := utf8Seen
   init := rfl
   step := fun s b hi _ _ => utf8_spanOk s b hi
@@ -551,7 +584,7 @@ theorem utf16_spanOk (be : Bool) (s : Utf16St) (b : Nat) (hp : s.pendingBmp = fa
         | (refine spanOk_bad _ _ _ _ _ ?_ ?_ <;> simp [utf16Seen, hls] <;> (try split) <;> omega)
         | (exfalso; simp_all)
 
-def utf16Span (be : Bool) (I : ScalarInv (utf16Fam be)) : SpanFam (utf16Fam be) I where
+def utf16Span (be : Bool) (I : StInv (utf16Fam be)) : SpanFam (utf16Fam be) I where
   seen := utf16Seen
   init := rfl
   step := fun s b _ hp _ => utf16_spanOk be s b ((utf16_pend_none_iff s be).mp hp)
@@ -646,7 +679,7 @@ theorem iso_spanOk (s : Iso2022JpSt) (b : Nat) : SpanOk (isoSeen s) isoSeen (iso
     repeat' split
     all_goals iso_leaf
 
-def isoSpan (I : ScalarInv iso2022JpFam) : SpanFam iso2022JpFam I where
+def isoSpan (I : StInv iso2022JpFam) : SpanFam iso2022JpFam I where
   seen := isoSeen
   init := rfl
   step := fun s b _ _ _ => iso_spanOk s b
@@ -674,7 +707,12 @@ def isoSpan (I : ScalarInv iso2022JpFam) : SpanFam iso2022JpFam I where
 
 /-! ### all 13 variant decoders -/
 
-def variantSpan : (v : Gen.Variant) → SpanFam (famOfVariant v) (variantScalar v)
+/-- the invariant the range theorems need: the UTF-8 decoder's (`seen ≤ 2` etc.); none elsewhere -/
+def variantStInv : (v : Gen.Variant) → StInv (famOfVariant v)
+  | .utf8 => StInv.ofScalar utf8Scalar
+  | v => StInv.trivial (famOfVariant v)
+
+def variantSpan : (v : Gen.Variant) → SpanFam (famOfVariant v) (variantStInv v)
   | .singleByte _ _ _ _ => singleByteSpan _ _
   | .utf8 => utf8Span
   | .gbk => gbSpan _
@@ -688,6 +726,25 @@ def variantSpan : (v : Gen.Variant) → SpanFam (famOfVariant v) (variantScalar 
   | .utf16Be => utf16Span true _
   | .utf16Le => utf16Span false _
   | .userDefined => userDefinedSpan _
+
+/-- `Thm.C01.malformed_numbers` restated over `variantStInv` (only UTF-8 needs an invariant) -/
+theorem variant_errOk (v : Gen.Variant) (s : (famOfVariant v).σ) (hi : (variantStInv v).Inv s) :
+    (∀ b e, ((famOfVariant v).feed s b).err = some e → ErrOk e) ∧
+    (∀ e s', (famOfVariant v).eof s = some (e, s') → ErrOk e) := by
+  cases v with
+  | singleByte t a b c => exact ⟨fun b => singleByte_eok _ s b, fun e s' h => by cases h⟩
+  | utf8 => exact ⟨fun b => utf8_eok s b hi, fun e s' h => utf8_eof_ok s hi e s' h⟩
+  | gbk => exact ⟨fun b => gb_eok s b, fun e s' h => gb_eof_ok s e s' h⟩
+  | gb18030 => exact ⟨fun b => gb_eok s b, fun e s' h => gb_eof_ok s e s' h⟩
+  | big5 => exact ⟨fun b => twoByte_eok big5Lead big5Trail s b, fun e s' h => twoByte_eof_ok big5Lead big5Trail true s e s' h⟩
+  | eucJp => exact ⟨fun b => eucJp_eok s b, fun e s' h => eucJp_eof_ok s e s' h⟩
+  | iso2022Jp => exact ⟨fun b => iso_eok s b, fun e s' h => iso_eof_ok s e s' h⟩
+  | shiftJis => exact ⟨fun b => twoByte_eok shiftJisLead shiftJisTrail s b, fun e s' h => twoByte_eof_ok shiftJisLead shiftJisTrail false s e s' h⟩
+  | eucKr => exact ⟨fun b => twoByte_eok eucKrLead eucKrTrail s b, fun e s' h => twoByte_eof_ok eucKrLead eucKrTrail false s e s' h⟩
+  | replacement => exact ⟨fun b => replacement_eok s b, fun e s' h => by cases h⟩
+  | utf16Be => exact ⟨fun b => utf16_eok true s b, fun e s' h => utf16_eof_ok s e s' h⟩
+  | utf16Le => exact ⟨fun b => utf16_eok false s b, fun e s' h => utf16_eof_ok s e s' h⟩
+  | userDefined => exact ⟨fun b => userDefined_eok s b, fun e s' h => by cases h⟩
 
 theorem utf16_alt_errOk (be : Bool) (s : Utf16St) (src : List Nat) (m : Nat) (r : FeedRes Utf16St) (e : Nat × Nat)
     (h : utf16Alt be s src = some (m, r)) (he : r.err = some e) : ErrOk e := by
@@ -715,14 +772,14 @@ theorem variant_alt_errOk (v : Gen.Variant) (s : (famOfVariant v).σ) (src : Lis
 /-- every `Malformed(l, a)` a raw call returns from a state satisfying the invariant: the documented
 ranges, and the span fits in the in-flight bytes plus what the call read -/
 theorem variant_call_malformed (v : Gen.Variant) (k : Sink) (s : (famOfVariant v).σ) (src : List Nat)
-    (last : Bool) (budget : Budget) (hi : (variantScalar v).Inv s) (hb : ∀ b ∈ src, b < 256) (l a : Nat)
+    (last : Bool) (budget : Budget) (hi : (variantStInv v).Inv s) (hb : ∀ b ∈ src, b < 256) (l a : Nat)
     (h : (call (famOfVariant v) k s src last budget).res = .malformed l a) :
     ErrOk (l, a) ∧ l + a ≤ (variantSpan v).seen s + (call (famOfVariant v) k s src last budget).read :=
-  ⟨call_errOk (variantScalar v) k (famOfVariant_laws v)
-      (fun s b e hi he => (malformed_numbers v s hi).1 b e he)
-      (fun s e s' hi he => (malformed_numbers v s hi).2 e s' he)
+  ⟨call_errOk (variantStInv v) k (famOfVariant_laws v)
+      (fun s b e hi he => (variant_errOk v s hi).1 b e he)
+      (fun s e s' hi he => (variant_errOk v s hi).2 e s' he)
       (fun s src m r e ha he => variant_alt_errOk v s src m r e ha he) s src last budget hi hb l a h,
-    (call_span (variantSpan v) k (famOfVariant_laws v) s src last budget hi hb).2 l a h⟩
+    (call_span (variantSpan v) k (famOfVariant_laws v) s src last budget hi hb).2.2 l a h⟩
 
 /-- state `s` is reached from the initial state by raw calls (any sink, chunks, stop decisions) that
 consumed `pos` bytes in total -/
@@ -734,12 +791,13 @@ inductive ReachAt (v : Gen.Variant) : (famOfVariant v).σ → Nat → Prop
         (pos + (Model.call (famOfVariant v) k s src last budget).read)
 
 theorem reachAt_inv (v : Gen.Variant) (s : (famOfVariant v).σ) (pos : Nat) (h : ReachAt v s pos) :
-    (variantScalar v).Inv s ∧ (variantSpan v).seen s ≤ pos := by
+    (variantStInv v).Inv s ∧ (variantSpan v).seen s ≤ pos := by
   induction h with
-  | init => exact ⟨(variantScalar v).init, by rw [(variantSpan v).init]; exact Nat.le_refl _⟩
+  | init => exact ⟨(variantStInv v).init, by rw [(variantSpan v).init]; exact Nat.le_refl _⟩
   | call k s pos src last budget _ hb ih =>
-    refine ⟨(call_scalar _ k (famOfVariant_laws v) (variantScalar v) s src last budget ih.1 hb).1, ?_⟩
-    have := (call_span (variantSpan v) k (famOfVariant_laws v) s src last budget ih.1 hb).1
+    have hc := call_span (variantSpan v) k (famOfVariant_laws v) s src last budget ih.1 hb
+    refine ⟨hc.1, ?_⟩
+    have := hc.2.1
     have := ih.2
     omega
 
@@ -903,10 +961,10 @@ theorem reachable_never_panics (v : Gen.Variant) (bom : BomHandling) (d : Decode
 
 /-- the scalar invariant of whichever decoder is current -/
 def curSI (v : Gen.Variant) : Cur (famOfVariant v) → Prop
-  | .nominal s => (variantScalar v).Inv s
-  | .utf8 s => (variantScalar .utf8).Inv s
-  | .utf16be s => (variantScalar .utf16Be).Inv s
-  | .utf16le s => (variantScalar .utf16Le).Inv s
+  | .nominal s => (variantStInv v).Inv s
+  | .utf8 s => (variantStInv .utf8).Inv s
+  | .utf16be s => (variantStInv .utf16Be).Inv s
+  | .utf16le s => (variantStInv .utf16Le).Inv s
 
 /-- the in-flight bytes of whichever decoder is current -/
 def curSeen (v : Gen.Variant) : Cur (famOfVariant v) → Nat
@@ -921,15 +979,15 @@ theorem cur_call_span (v : Gen.Variant) (k : Sink) (c : Cur (famOfVariant v)) (s
     curSeen v (c.call k src last b).cur ≤ curSeen v c + (c.call k src last b).read ∧
     ∀ l a, (c.call k src last b).res = .malformed l a →
       ErrOk (l, a) ∧ l + a ≤ curSeen v c + (c.call k src last b).read := by
-  have key : ∀ (w : Gen.Variant) (s : (famOfVariant w).σ), (variantScalar w).Inv s →
-      (variantScalar w).Inv (call (famOfVariant w) k s src last b).st ∧
+  have key : ∀ (w : Gen.Variant) (s : (famOfVariant w).σ), (variantStInv w).Inv s →
+      (variantStInv w).Inv (call (famOfVariant w) k s src last b).st ∧
       (variantSpan w).seen (call (famOfVariant w) k s src last b).st
         ≤ (variantSpan w).seen s + (call (famOfVariant w) k s src last b).read ∧
       ∀ l a, (call (famOfVariant w) k s src last b).res = .malformed l a →
         ErrOk (l, a) ∧ l + a ≤ (variantSpan w).seen s + (call (famOfVariant w) k s src last b).read :=
     fun w s hi =>
-      ⟨(call_scalar _ k (famOfVariant_laws w) (variantScalar w) s src last b hi hb).1,
-        (call_span (variantSpan w) k (famOfVariant_laws w) s src last b hi hb).1,
+      ⟨(call_span (variantSpan w) k (famOfVariant_laws w) s src last b hi hb).1,
+        (call_span (variantSpan w) k (famOfVariant_laws w) s src last b hi hb).2.1,
         fun l a h => variant_call_malformed w k s src last b hi hb l a h⟩
   cases c with
   | nominal s => exact key v s hi
@@ -1039,7 +1097,7 @@ structure LifeSpan (v : Gen.Variant) (d : Decoder (famOfVariant v)) (pos : Nat) 
 
 theorem lifeSpan_new (v : Gen.Variant) (nom : Nominal) (bom : BomHandling) :
     LifeSpan v (Decoder.new (famOfVariant v) nom bom) 0 := by
-  refine ⟨(variantScalar v).init, ?_, fresh_new nom bom, pendInv_new nom bom⟩
+  refine ⟨(variantStInv v).init, ?_, fresh_new nom bom, pendInv_new nom bom⟩
   rw [withheld_new]
   show (variantSpan v).seen (famOfVariant v).init + 0 ≤ 0
   rw [(variantSpan v).init]; exact Nat.le_refl _
@@ -1077,17 +1135,17 @@ theorem rawCall_spanRes (v : Gen.Variant) (k : Sink) (d : Decoder (famOfVariant 
       · cases life <;> first | rfl | cases hl
     exact checkingEnd_span v k d.cur src last b2 0 [] [] pos hd.inv (by have := hd.seen; omega) hb
   | bom8 off _ =>
-    exact checkingEnd_span v k (.utf8 utf8Fam.init) src last b2 off [] [] pos (variantScalar .utf8).init
+    exact checkingEnd_span v k (.utf8 utf8Fam.init) src last b2 off [] [] pos (variantStInv .utf8).init
       (by rw [curSeen_utf8_init]; omega) hb
   | bom16 be off _ =>
     cases be with
     | true =>
       exact checkingEnd_span v k (.utf16be (utf16Fam true).init) src last b2 off [] [] pos
-        (variantScalar .utf16Be).init
+        (variantStInv .utf16Be).init
         (by rw [curSeen_utf16be_init]; omega) hb
     | false =>
       exact checkingEnd_span v k (.utf16le (utf16Fam false).init) src last b2 off [] [] pos
-        (variantScalar .utf16Le).init
+        (variantStInv .utf16Le).init
         (by rw [curSeen_utf16le_init]; omega) hb
   | one fb hfb =>
     have hw1 : withheld d.life = 1 := by
